@@ -16,7 +16,13 @@
 EXTENDS Integers, Sequences
 
 CONSTANTS Bs,                \* word base
-          AddBackWraps       \* BOOLEAN
+          AddBackWraps,      \* BOOLEAN
+          KarThr,            \* decKaratsubaThreshold      (30 in the library, a tuning variable)
+          BasicSqrThr,       \* decBasicSqrThreshold       (10)
+          KarSqrThr,         \* decKaratsubaSqrThreshold   (50)
+          DivRecThr,         \* divRecursiveThreshold      (100); >= 4, or the recursion does not shrink the divisor
+          LowBlockAtB        \* BOOLEAN: TRUE = the lowest block of the recursive division is split at B (defect D25 of
+                             \* the pinned tree, math/big issue 42552), FALSE = at B-1 (the repaired code)
 
 RECURSIVE ValW(_)
 ValW(w) == IF Len(w) = 0 THEN 0 ELSE w[1] + Bs * ValW(Tail(w))
@@ -92,20 +98,277 @@ DivBasicStep(st, v, j, m) ==
       uN  == IF borrowed THEN u2 ELSE u1
       qh  == IF borrowed THEN qh0 - 1 ELSE qh0
       skip == j = m /\ m = Len(st.q) /\ qh = 0
-  IN [u |-> uN, q |-> IF skip THEN st.q ELSE [st.q EXCEPT ![j + 1] = qh],
-      bad |-> st.bad \/ ~WordsOK(uN) \/ qh < 0 \/ qh >= Bs]
+  IN [u |-> uN, q |-> IF skip \/ j + 1 > Len(st.q) THEN st.q ELSE [st.q EXCEPT ![j + 1] = qh],
+      bad |-> st.bad \/ ~WordsOK(uN) \/ qh < 0 \/ qh >= Bs \/ (~skip /\ j + 1 > Len(st.q))]     \* q[j] out of range: a Go panic
 
 RECURSIVE DivBasicLoop(_, _, _, _)
 DivBasicLoop(st, v, j, m) == IF j < 0 THEN st ELSE DivBasicLoop(DivBasicStep(st, v, j, m), v, j - 1, m)
 
-(* divLarge: normalise, divBasic, un-normalise.  len(v) >= 2, u >= v.  Returns [q, r, bad] *)
+(***************************************************************************)
+(* Multiplication and squaring (dec.go: mul, decBasicMul, decKaratsuba,    *)
+(* sqr, decBasicSqr, decKaratsubaSqr, decAddAt, decKaratsubaAdd/Sub), with *)
+(* the layout of the scratch buffer z as in the code: a call works on      *)
+(* z[o : o+6n] and the functions below return the whole updated buffer.    *)
+(***************************************************************************)
+Zeros(n) == [k \in 1..n |-> 0]
+MaxI(a, b) == IF a > b THEN a ELSE b
+ClearFrom(z, j) == [k \in 1..Len(z) |-> IF k > j THEN 0 ELSE z[k]]                   \* z[j:].clear()
+OutOfRange == <<-1>>                                                                  \* stands for a Go slice-bounds panic (fails WordsOK)
+
+(* addMul10VVW: z + x*y + c over Len(x) words: <<z', carry>> *)
+RECURSIVE AddMulVVW(_, _, _, _)
+AddMulVVW(z, x, y, c) ==
+  IF Len(x) = 0 THEN <<<<>>, c>>
+  ELSE LET t == x[1] * y + z[1] + c
+           rest == AddMulVVW(Tail(z), Tail(x), y, t \div Bs)
+       IN <<<<t % Bs>> \o rest[1], rest[2]>>
+
+(* add10VW / sub10VW: x +- c over Len(x) words: <<z, carry>> *)
+RECURSIVE AddVW(_, _)
+AddVW(x, c) ==
+  IF Len(x) = 0 THEN <<<<>>, c>>
+  ELSE LET t == x[1] + c
+           rest == AddVW(Tail(x), IF t >= Bs THEN 1 ELSE 0)
+       IN <<<<IF t >= Bs THEN t - Bs ELSE t>> \o rest[1], rest[2]>>
+RECURSIVE SubVW(_, _)
+SubVW(x, c) ==
+  IF Len(x) = 0 THEN <<<<>>, c>>
+  ELSE LET t == x[1] - c
+           rest == SubVW(Tail(x), IF t < 0 THEN 1 ELSE 0)
+       IN <<<<IF t < 0 THEN t + Bs ELSE t>> \o rest[1], rest[2]>>
+
+(* decBasicMul: the result occupies Len(x)+Len(y) words *)
+RECURSIVE BasicMulLoop(_, _, _, _)
+BasicMulLoop(z, x, y, i) ==
+  IF i >= Len(y) THEN z
+  ELSE IF y[i + 1] = 0 THEN BasicMulLoop(z, x, y, i + 1)
+  ELSE LET am == AddMulVVW(SubSeq(z, i + 1, i + Len(x)), x, y[i + 1], 0)
+       IN BasicMulLoop([Splice(z, i, am[1]) EXCEPT ![Len(x) + i + 1] = am[2]], x, y, i + 1)
+BasicMul(x, y) == BasicMulLoop(Zeros(Len(x) + Len(y)), x, y, 0)
+
+(* decAddAt: z += x * Bs^i ; the carry is propagated to the end of z and then dropped *)
+AddAt(z, x, i) ==
+  LET n == Len(x)
+  IN IF n = 0 THEN z
+     ELSE IF i + n > Len(z) THEN OutOfRange
+     ELSE LET a  == AddVV(SubSeq(z, i + 1, i + n), x, 0)
+              z1 == Splice(z, i, a[1])
+          IN IF a[2] # 0 /\ i + n < Len(z) THEN Splice(z1, i + n, AddVW(SubSeq(z1, i + n + 1, Len(z1)), a[2])[1]) ELSE z1
+
+(* decKaratsubaAdd / Sub on z[o:]: n words, the carry goes into the n/2 words above and no further *)
+KarAdd(z, o, x, n) ==
+  LET a  == AddVV(SubSeq(z, o + 1, o + n), SubSeq(x, 1, n), 0)
+      z1 == Splice(z, o, a[1])
+  IN IF a[2] # 0 THEN Splice(z1, o + n, AddVW(SubSeq(z1, o + n + 1, o + n + (n \div 2)), a[2])[1]) ELSE z1
+KarSub(z, o, x, n) ==
+  LET a  == SubVV(SubSeq(z, o + 1, o + n), SubSeq(x, 1, n), 0)
+      z1 == Splice(z, o, a[1])
+  IN IF a[2] # 0 THEN Splice(z1, o + n, SubVW(SubSeq(z1, o + n + 1, o + n + (n \div 2)), a[2])[1]) ELSE z1
+
+(* |a - b| and whether a < b, as the code does it: subtract, and the other way round on a borrow *)
+AbsDiff(a, b) == LET d == SubVV(a, b, 0) IN IF d[2] # 0 THEN [w |-> SubVV(b, a, 0)[1], neg |-> TRUE] ELSE [w |-> d[1], neg |-> FALSE]
+
+(* decKaratsuba(z[o:], x, y): Len(x) = Len(y) = n, Len(z) >= o + 6n; product in z[o : o+2n] *)
+RECURSIVE Karatsuba(_, _, _, _)
+Karatsuba(z, o, x, y) ==
+  LET n == Len(y)
+  IN IF n % 2 # 0 \/ n < KarThr \/ n < 2 THEN Splice(z, o, BasicMul(x, y))
+     ELSE LET n2 == n \div 2
+              x1 == SubSeq(x, n2 + 1, n)   x0 == SubSeq(x, 1, n2)
+              y1 == SubSeq(y, n2 + 1, n)   y0 == SubSeq(y, 1, n2)
+              za == Karatsuba(z, o, x0, y0)                      \* z0 = x0*y0 in z[0:n]
+              zb == Karatsuba(za, o + n, x1, y1)                 \* z2 = x1*y1 in z[n:2n]
+              xd == AbsDiff(x1, x0)                              \* x1-x0 in z[2n : 2n+n2]
+              yd == AbsDiff(y0, y1)                              \* y0-y1 in z[2n+n2 : 3n]
+              zc == Splice(Splice(zb, o + 2 * n, xd.w), o + 2 * n + n2, yd.w)
+              zd == Karatsuba(zc, o + 3 * n, xd.w, yd.w)         \* p in z[3n : 4n]
+              r  == SubSeq(zd, o + 1, o + 2 * n)                 \* copy of z2:z0 in z[4n : 6n]
+              ze == Splice(zd, o + 4 * n, r)
+              zf == KarAdd(ze, o + n2, r, n)
+              zg == KarAdd(zf, o + n2, SubSeq(r, n + 1, 2 * n), n)
+              p  == SubSeq(zg, o + 3 * n + 1, o + 4 * n)
+          IN IF xd.neg = yd.neg THEN KarAdd(zg, o + n2, p, n) ELSE KarSub(zg, o + n2, p, n)
+
+RECURSIVE KarLenI(_, _, _)
+KarLenI(n, thr, sh) == IF n > thr THEN KarLenI(n \div 2, thr, sh * 2) ELSE n * sh
+KarLen(n, thr) == KarLenI(n, thr, 1)
+
+(* dec.mul (operands as given: the callers below also pass unnormalised ones, as the code does) *)
+RECURSIVE Mul(_, _)
+RECURSIVE MulRest(_, _, _, _, _, _)
+MulRest(z, x, y0, y1, k, i) ==                                   \* add xi*y0<<i, xi*y1<<(i+k) for i = k, 2k, ...
+  IF i >= Len(x) THEN z
+  ELSE LET xi == NormW(SubSeq(x, i + 1, IF i + k < Len(x) THEN i + k ELSE Len(x)))
+           za == AddAt(z, Mul(xi, y0), i)
+           zb == IF za = OutOfRange THEN za ELSE AddAt(za, Mul(xi, y1), i + k)
+       IN IF zb = OutOfRange THEN zb ELSE MulRest(zb, x, y0, y1, k, i + k)
+Mul(x, y) ==
+  LET m == Len(x)  n == Len(y)
+  IN IF m < n THEN Mul(y, x)
+     ELSE IF m = 0 \/ n = 0 THEN <<>>
+     ELSE IF n = 1 THEN LET t == MulAddVWW(x, y[1], 0) IN NormW(t[1] \o <<t[2]>>)
+     ELSE IF n < KarThr THEN NormW(BasicMul(x, y))
+     ELSE LET k  == KarLen(n, KarThr)
+              x0 == SubSeq(x, 1, k)   y0 == SubSeq(y, 1, k)
+              zk == Karatsuba(Zeros(MaxI(6 * k, m + n)), 0, x0, y0)
+              z0 == ClearFrom(SubSeq(zk, 1, m + n), 2 * k)
+          IN IF k < n \/ m # n
+             THEN LET y1 == SubSeq(y, k + 1, n)
+                      za == AddAt(z0, Mul(NormW(x0), y1), k)
+                  IN IF za = OutOfRange THEN za ELSE NormW(MulRest(za, x, NormW(y0), y1, k, k))
+             ELSE NormW(z0)
+
+(* decBasicSqr: the squares x[i]^2 in z, the products x[i]*x[j] (j < i) in t, doubled, then added *)
+RECURSIVE BasicSqrT(_, _, _)
+BasicSqrT(t, x, i) ==
+  IF i >= Len(x) THEN t
+  ELSE LET am == AddMulVVW(SubSeq(t, i + 1, 2 * i), SubSeq(x, 1, i), x[i + 1], 0)
+       IN BasicSqrT([Splice(t, i, am[1]) EXCEPT ![2 * i + 1] = am[2]], x, i + 1)
+BasicSqr(x) ==
+  LET n   == Len(x)
+      zsq == [k \in 1..(2 * n) |-> LET d == x[(k + 1) \div 2] IN IF k % 2 = 1 THEN (d * d) % Bs ELSE (d * d) \div Bs]
+      t0  == BasicSqrT(Zeros(2 * n), x, 1)
+      dbl == MulAddVWW(SubSeq(t0, 2, 2 * n - 1), 2, 0)
+      t1  == <<t0[1]>> \o dbl[1] \o <<dbl[2]>>
+  IN AddVV(zsq, t1, 0)[1]
+
+RECURSIVE KaratsubaSqr(_, _, _)
+KaratsubaSqr(z, o, x) ==
+  LET n == Len(x)
+  IN IF n % 2 # 0 \/ n < KarSqrThr \/ n < 2 THEN Splice(z, o, BasicSqr(x))
+     ELSE LET n2 == n \div 2
+              x1 == SubSeq(x, n2 + 1, n)   x0 == SubSeq(x, 1, n2)
+              za == KaratsubaSqr(z, o, x0)
+              zb == KaratsubaSqr(za, o + n, x1)
+              xd == AbsDiff(x1, x0)
+              zc == Splice(zb, o + 2 * n, xd.w)
+              zd == KaratsubaSqr(zc, o + 3 * n, xd.w)
+              r  == SubSeq(zd, o + 1, o + 2 * n)
+              ze == Splice(zd, o + 4 * n, r)
+              zf == KarAdd(ze, o + n2, r, n)
+              zg == KarAdd(zf, o + n2, SubSeq(r, n + 1, 2 * n), n)
+          IN KarSub(zg, o + n2, SubSeq(zg, o + 3 * n + 1, o + 4 * n), n)
+
+RECURSIVE Sqr(_)
+Sqr(x) ==
+  LET n == Len(x)
+  IN IF n = 0 THEN <<>>
+     ELSE IF n = 1 THEN NormW(<<(x[1] * x[1]) % Bs, (x[1] * x[1]) \div Bs>>)
+     ELSE IF n < BasicSqrThr THEN NormW(BasicMul(x, x))
+     ELSE IF n < KarSqrThr THEN NormW(BasicSqr(x))
+     ELSE LET k  == KarLen(n, KarSqrThr)
+              x0 == SubSeq(x, 1, k)
+              zk == KaratsubaSqr(Zeros(MaxI(6 * k, 2 * n)), 0, x0)
+              z0 == ClearFrom(SubSeq(zk, 1, 2 * n), 2 * k)
+          IN IF k < n
+             THEN LET x1 == SubSeq(x, k + 1, n)
+                      t  == Mul(NormW(x0), x1)
+                      za == AddAt(z0, t, k)
+                      zb == IF za = OutOfRange THEN za ELSE AddAt(za, t, k)
+                      zc == IF zb = OutOfRange THEN zb ELSE AddAt(zb, Sqr(x1), 2 * k)
+                  IN IF zc = OutOfRange THEN zc ELSE NormW(zc)
+             ELSE NormW(z0)
+
+MulCorrect(x, y) == LET r == Mul(x, y) IN WordsOK(r) /\ r = NormW(r) /\ ValW(r) = ValW(x) * ValW(y)
+SqrCorrect(x) == LET r == Sqr(x) IN WordsOK(r) /\ r = NormW(r) /\ ValW(r) = ValW(x) * ValW(x)
+
+(***************************************************************************)
+(* Recursive division (dec.go: divRecursive, divRecursiveStep; Burnikel-   *)
+(* Ziegler).  The code works in place on slices of u; here every step      *)
+(* returns [z, u, bad] with z and u of the lengths it was given.  dec.cmp  *)
+(* compares lengths first - CmpW does the same, also for the operands the  *)
+(* code passes without normalising them.  tv is the set of recursion       *)
+(* depths whose quotient buffer exists already (temps[depth] # nil): a     *)
+(* new one has Len(v) words, a reused one n/2 + 1.                          *)
+(***************************************************************************)
+RECURSIVE CmpTop(_, _, _)
+CmpTop(x, y, k) == IF k = 0 THEN 0 ELSE IF x[k] # y[k] THEN (IF x[k] < y[k] THEN -1 ELSE 1) ELSE CmpTop(x, y, k - 1)
+CmpW(x, y) == IF Len(x) # Len(y) THEN (IF Len(x) < Len(y) THEN -1 ELSE 1) ELSE CmpTop(x, y, Len(x))
+
+(* one "q̂ was too large" correction: q̂--, q̂v -= v_l, u += v_h << s   (a = [qhat, qhatv, uu, bad]) *)
+AdjStep(a, v, s) ==
+  LET lq  == Len(a.qhatv)
+      qvp == a.qhatv \o Zeros(MaxI(0, s - lq))               \* qhatv[:s] reaches into the cleared storage behind the slice
+      sb  == SubVV(SubSeq(qvp, 1, s), SubSeq(v, 1, s), 0)
+      qv1 == Splice(qvp, 0, sb[1])
+      qv2 == IF lq > s THEN Splice(qv1, s, SubVW(SubSeq(qv1, s + 1, lq), sb[2])[1]) ELSE qv1
+      up  == AddAt(SubSeq(a.uu, s + 1, Len(a.uu)), SubSeq(v, s + 1, Len(v)), 0)
+  IN IF up = OutOfRange THEN [a EXCEPT !.bad = TRUE]
+     ELSE [qhat |-> SubVW(a.qhat, 1)[1], qhatv |-> SubSeq(qv2, 1, lq), uu |-> Splice(a.uu, s, up), bad |-> a.bad]
+Adj2(a, v, s) ==
+  IF CmpW(a.qhatv, NormW(a.uu)) <= 0 THEN a
+  ELSE LET a1 == AdjStep(a, v, s)
+       IN IF a1.bad \/ CmpW(a1.qhatv, NormW(a1.uu)) <= 0 THEN a1 ELSE AdjStep(a1, v, s)
+
+RECURSIVE DivRecStep(_, _, _, _, _)
+(* one block of the `for j > B` loop: st = [z, u, bad, tv] *)
+DivRecBlock(st, v, j, B, depth, lq) ==
+  LET n   == Len(v)  s == B - 1
+      u   == st.u
+      o   == j - B                                           \* uu = u[j-B:]
+      uu  == SubSeq(u, o + 1, Len(u))
+      sub == DivRecStep(Zeros(lq), SubSeq(uu, s + 1, B + n), SubSeq(v, s + 1, n), depth + 1, st.tv)
+      a0  == [qhat |-> NormW(sub.z), qhatv |-> Mul(NormW(sub.z), SubSeq(v, 1, s)), uu |-> Splice(uu, s, sub.u), bad |-> FALSE]
+      a   == Adj2(a0, v, s)
+      imp == CmpW(a.qhatv, NormW(a.uu)) > 0                  \* panic("impossible")
+      lv  == Len(a.qhatv)
+      sb  == SubVV(SubSeq(a.uu, 1, lv), a.qhatv, 0)
+      u1  == Splice(a.uu, 0, sb[1])
+      u2  == IF sb[2] > 0 THEN Splice(u1, lv, SubVW(SubSeq(u1, lv + 1, Len(u1)), sb[2])[1]) ELSE u1
+      z1  == AddAt(st.z, a.qhat, j - B)
+      bad == st.bad \/ sub.bad \/ a.bad \/ imp \/ lv > Len(a.uu) \/ z1 = OutOfRange \/ B + n > Len(uu)
+  IN [z |-> IF z1 = OutOfRange THEN st.z ELSE z1, u |-> IF bad THEN u ELSE Splice(u, o, u2), bad |-> bad, tv |-> sub.tv]
+
+RECURSIVE DivRecBlocks(_, _, _, _, _, _)
+DivRecBlocks(st, v, j, B, depth, lq) ==
+  IF j <= B \/ st.bad THEN st ELSE DivRecBlocks(DivRecBlock(st, v, j, B, depth, lq), v, j - B, B, depth, lq)
+
+(* the lowest block *)
+DivRecLast(st, v, B, depth, lq) ==
+  LET n   == Len(v)  s == IF LowBlockAtB THEN B ELSE B - 1
+      u   == st.u
+      us  == NormW(SubSeq(u, s + 1, Len(u)))
+      sub == DivRecStep(Zeros(lq), us, SubSeq(v, s + 1, n), depth + 1, st.tv)
+      a0  == [qhat |-> NormW(sub.z), qhatv |-> Mul(NormW(sub.z), SubSeq(v, 1, s)), uu |-> Splice(u, s, sub.u), bad |-> FALSE]
+      a   == Adj2(a0, v, s)
+      imp == CmpW(a.qhatv, NormW(a.uu)) > 0
+      lv  == Len(a.qhatv)
+      sb  == SubVV(SubSeq(a.uu, 1, lv), a.qhatv, 0)
+      u1  == Splice(a.uu, 0, sb[1])
+      sw  == IF sb[2] > 0 THEN SubVW(SubSeq(u1, lv + 1, Len(u1)), sb[2]) ELSE <<SubSeq(u1, lv + 1, Len(u1)), 0>>
+      z1  == AddAt(st.z, NormW(a.qhat), 0)
+      bad == st.bad \/ sub.bad \/ a.bad \/ imp \/ lv > Len(a.uu) \/ sw[2] > 0 \/ z1 = OutOfRange
+  IN [z |-> IF z1 = OutOfRange THEN st.z ELSE z1, u |-> IF bad THEN u ELSE Splice(u1, lv, sw[1]), bad |-> bad, tv |-> sub.tv]
+
+DivRecStep(zIn, uIn, vIn, depth, tv) ==
+  LET u == NormW(uIn)  v == NormW(vIn)  n == Len(v)  m == Len(u) - n
+      pad(w) == w \o Zeros(Len(uIn) - Len(w))                \* the words norm() cut off are zero and stay so
+  IN IF Len(u) = 0 THEN [z |-> Zeros(Len(zIn)), u |-> uIn, bad |-> FALSE, tv |-> tv]
+     ELSE IF n < DivRecThr
+     THEN LET st == DivBasicLoop([u |-> u, q |-> zIn, bad |-> n < 2], v, m, m)
+          IN [z |-> st.q, u |-> pad(st.u), bad |-> st.bad, tv |-> tv]
+     ELSE IF m < 0 THEN [z |-> zIn, u |-> uIn, bad |-> FALSE, tv |-> tv]
+     ELSE LET B   == n \div 2
+              lq  == IF depth \in tv THEN B + 1 ELSE n
+              st0 == [z |-> zIn, u |-> u, bad |-> FALSE, tv |-> tv \cup {depth}]
+              \* the blocks j = m, m-B, ... while j > B, then the lowest one
+              st1 == DivRecBlocks(st0, v, m, B, depth, lq)
+              fin == IF st1.bad THEN st1 ELSE DivRecLast(st1, v, B, depth, lq)
+          IN [z |-> fin.z, u |-> pad(fin.u), bad |-> fin.bad, tv |-> fin.tv]
+
+(* divRecursive: z.clear(), then the step at depth 0 *)
+DivRecursive(q, u, v) == LET r == DivRecStep(Zeros(Len(q)), u, v, 0, {}) IN [u |-> r.u, q |-> r.z, bad |-> r.bad]
+
+(* divLarge: normalise, divBasic or divRecursive, un-normalise.  len(v) >= 2, u >= v.  Returns [q, r, bad] *)
 DivLarge(uIn, vIn) ==
   LET n == Len(vIn)  m == Len(uIn)
       d == Bs \div (vIn[n] + 1)
       v == MulAddVWW(vIn, d, 0)[1]
       ut == MulAddVWW(uIn, d, 0)
       u == ut[1] \o <<ut[2]>>
-      st == DivBasicLoop([u |-> u, q |-> [k \in 1..(m - n + 1) |-> 0], bad |-> FALSE], v, m - n, m - n)
+      q0 == Zeros(m - n + 1)
+      st == IF n < DivRecThr THEN DivBasicLoop([u |-> u, q |-> q0, bad |-> FALSE], v, m + 1 - n, m + 1 - n)
+            ELSE DivRecursive(q0, u, v)
       r == DivVW(SubSeq(st.u, 1, n), d, 0)
   IN [q |-> NormW(st.q), r |-> NormW(r[1]), bad |-> st.bad \/ r[2] # 0 \/ ~WordsOK(SubSeq(st.u, 1, n)) \/ ValW(SubSeq(st.u, n + 1, Len(st.u))) # 0]
 
